@@ -6,6 +6,7 @@ import (
 	"io"
 
 	"github.com/oasisprotocol/oasis-core/go/common/crypto/hash"
+	"github.com/oasisprotocol/oasis-core/go/common/verifhook"
 	db "github.com/oasisprotocol/oasis-core/go/storage/mkvs/db/api"
 	"github.com/oasisprotocol/oasis-core/go/storage/mkvs/node"
 	"github.com/oasisprotocol/oasis-core/go/storage/mkvs/syncer"
@@ -119,6 +120,7 @@ func (s *subtree) nextChunk(ctx context.Context, w io.WriteCloser, chunkSize uin
 		default:
 		}
 
+		verifhook.At("checkpoint.subtree.step")
 		if pb.Size() >= chunkSize && lastIsLeaf {
 			break
 		}
